@@ -17,9 +17,11 @@ UP = 'ABCDEFGHIJKLMNOPQRSTUVWXYZ'
 LOW = 'abcdefghijklmnopqrstuvwxyz'
 DIG = '0123456789'
 NON_ASCII = ['é', 'ß', '中', 'Ω', '\U0001F600', 'ñ', 'Ж']
-NON_ASCII_EXOTIC = [' ', '\xa0', '\x85', '　', '﻿']
+# not in Unicode normalisation form C / KC: a parser that normalises its input does not reproduce it (round 8, seed C01-h)
+NON_NORMAL = ['e\u0301', '\u0301', '\u212b', '\u037e', '\u1100\u1161', '\ufb01', '\u00b5', '\u2126']
+NON_ASCII_EXOTIC = [x for x in NON_NORMAL if ord(x[0]) > 127] + [' ', '\xa0', '\x85', '　', '﻿']
 HAZARD = ['"', '\\', ';', ' ', '\t', '#', '*', ':', '{', '}', ',', '@', '~', '(', ')', '\x0c', '\x0b', '\x1c', '\x1d', '\x1e', '\x85',
-          ' ', ' ', 'é', '中', '\U0001F600', "'", '^', '!', '-', '0', 'a', 'Z']
+          ' ', ' ', 'é', '中', '\U0001F600', "'", '^', '!', '-', '0', 'a', 'Z'] + NON_NORMAL
 FLAGS = '*!&#?%PSTCURM'
 RESERVED_CUR = {'TRUE', 'FALSE', 'NULL'}
 
@@ -193,6 +195,9 @@ class G:
             s = str(self.n(1, 999)) + ''.join(',%03d' % self.n(0, 999) for _ in range(self.n(1, 3)))
         elif x < 0.7:
             s = self.chars(DIG, 1, 12)
+        elif x < 0.73:
+            # more significant digits than the decimal context keeps (28): a literal is exact, only arithmetic rounds
+            s = self.chars('123456789', 1, 1) + self.chars(DIG, 18, 33)
         else:
             s = str(self.n(0, 99999))
         y = self.u()
